@@ -602,8 +602,10 @@ impl DrawState {
 
             // For the last line of the output, keep the cursor on the right terminal
             // side so that next user writes/prints will happen on the next line
-            last_line_filler =
-                Some(line_height.as_usize() * term_width - line.console_width() - pad);
+            // (A terminal may report a width of zero columns: nothing fits then, and no filler is due.)
+            last_line_filler = Some(
+                (line_height.as_usize() * term_width).saturating_sub(line.console_width() + pad),
+            );
         }
 
         // (The last line written is not the last line of `self.lines` if the bars exceed the
@@ -654,13 +656,14 @@ impl Add for VisualLines {
     type Output = Self;
 
     fn add(self, rhs: Self) -> Self::Output {
-        Self(self.0 + rhs.0)
+        // (The height of a line is "infinite" on a terminal that reports zero columns.)
+        Self(self.0.saturating_add(rhs.0))
     }
 }
 
 impl AddAssign for VisualLines {
     fn add_assign(&mut self, rhs: Self) {
-        self.0 += rhs.0;
+        self.0 = self.0.saturating_add(rhs.0);
     }
 }
 
